@@ -48,6 +48,7 @@ def run(chk, facts, tier):
     chk.rule('channel-dispatch', 'l2cap_input_handler::each calls Channel::l2cap_input only when channel_id == Channel::channel_id and passes the payload window', floor=1)
     chk.rule('reply-framing', 'the reply header carries handler.out_size and the received channel_id, is committed with out_size + header and only when handled && out_size; handler output window starts after the header', floor=1)
     chk.rule('response-needs-matching-identifier', 'signaling_channel::l2cap_input completes the pending request only for code 0x13 while transmitted and input[1] == identifier_ (with in_size covering it)', floor=1)
+    chk.rule('reply-size-defined', 'signaling_channel::l2cap_input and reject_command assign the reply size (in/out parameter, buffer capacity on entry) on every path to their exit, directly or by handing it to reject_command', floor=2)
     chk.rule('request-sent-once', 'l2cap_output emits the request only in state queued and stores transmitted on that path; output[1] = identifier_', floor=1)
     chk.rule('identifier-nonzero', 'identifier_ starts non-zero, is advanced only on completion and skips invalid_identifier', floor=2)
     chk.rule('reject-echo', 'reject_command answers only for in_size >= 2 and a non-zero identifier, echoing input[1]', floor=1)
@@ -113,6 +114,23 @@ def run(chk, facts, tier):
         skip = [s for v, s in adv if has_atom(guard_atoms(fn, s), lambda n: is_name(n, 'identifier_'), {'=='}, lambda o: (not isinstance(o, int) and strip_casts(o).n == 'invalid_identifier') or cval(o) == 0)]
         ok = ok and len(skip) == 1
         chk.instance('identifier-nonzero', fn, 'identifier_ advanced on completion, 0 skipped', ok, '' if ok else 'identifier may become 0 or advance without a completed request', key='advance')
+    # out_size is an in/out parameter (capacity of the reply buffer on entry, size of the reply on return): a path that leaves it untouched replies with a buffer full of garbage
+    for name in ('l2cap_input', 'reject_command'):
+        for fn in variants(facts, SC + name, chk):
+            os_ = [p_['n'] for p_ in fn.params if p_['n'] == 'out_size' or ('size_t &' in (p_.get('t') or '') and 'const' not in (p_.get('t') or ''))]
+            if not chk.require(len(os_) == 1, '%s: reply size parameter not found' % name):
+                continue
+            o = os_[0]
+            defs = set()
+            for tgt, op, val, st in stores(fn.body):
+                if is_name(tgt, o) and op == '=':
+                    defs.add(fn.block_of(st))
+            for c in fn.body.calls('reject_command'):
+                if any(is_name(a, o) for a in c.args()):
+                    defs.add(fn.block_of(c))
+            ok = bool(defs) and not fn.paths_avoiding([fn.entry], fn.exit, defs)
+            chk.instance('reply-size-defined', fn, '%s: %s written on every path (%d writing blocks)' % (name, o, len(defs)), ok,
+                         '' if ok else 'there is a path through %s that returns without setting %s: the caller takes the capacity of the output buffer as the size of a reply and sends a frame nobody wrote' % (name, o), key=name)
     for fn in variants(facts, SC + 'signaling_channel', chk):
         init = [i for n, i in fn.inits if n == 'identifier_']
         v = cval(init[0].c[0]) if init and init[0].c else (cval(init[0]) if init else None)
